@@ -2,7 +2,7 @@
   C18 — the regenerated source facts (EinoV/Gen/FactsC18.lean, core types only) decoded into
   the model's parameter record, and the concrete scripts used as witnesses in Props/C18.lean.
 -/
-import EinoV.Model.C18
+import EinoV.Model.C18Shared
 import EinoV.Gen.FactsC18
 
 namespace EinoV.C18
@@ -14,6 +14,10 @@ def genFacts : Option Facts :=
     FactsC18.topoPlainNodes FactsC18.topoPlainEdges FactsC18.topoPlainBranches
     FactsC18.topoRDNodes FactsC18.topoRDEdges FactsC18.topoRDBranches
     FactsC18.maxStepPassed FactsC18.maxStepExported FactsC18.defaultSlack FactsC18.modelPreAppends FactsC18.toolsPreAppends
+
+/-- the source facts about the memory of the message history (Model/C18Shared.lean) -/
+def genMemFacts : MemFacts :=
+  { historyOnlyAppended := FactsC18.historyOnlyAppended, stateFreshPerRun := FactsC18.stateFreshPerRun }
 
 /-! ## witness scripts -/
 
@@ -45,5 +49,17 @@ def wContiguous : Reply := ⟨[
   ⟨"", [⟨"c0", "t", "", some 0⟩, ⟨"", "", "{\"a\":", some 0⟩], []⟩,
   ⟨"", [⟨"", "", "1}", some 0⟩, ⟨"c1", "t", "", some 1⟩], []⟩,
   ⟨"", [⟨"", "", "{\"b\":", some 1⟩, ⟨"", "", "2}", some 1⟩], []⟩]⟩
+
+/-- two runs for the shared-slice witnesses: each calls `t` once (with its own argument and call
+    id) and then answers -/
+def wRunA : RunSpec :=
+  { cfg := wCfg [] 0, mode := .generate,
+    script := [⟨[⟨"for A", [⟨"cA", "t", "a", none⟩], []⟩]⟩, ⟨[⟨"answer A", [], []⟩]⟩] }
+def wRunB : RunSpec :=
+  { cfg := wCfg [] 0, mode := .stream,
+    script := [⟨[⟨"for B", [⟨"cB", "t", "b", none⟩], []⟩]⟩, ⟨[⟨"answer B", [], []⟩]⟩] }
+
+/-- two spare cells behind the caller's one message (whatever the caller keeps there) -/
+def wSpare : List Msg := [⟨.user, "spare-0", [], ""⟩, ⟨.user, "spare-1", [], ""⟩]
 
 end EinoV.C18
